@@ -35,7 +35,7 @@ ASSUMPTIONS = [
     'supported size family = DESIGN.md section 1.2 (pv/families.py)',
     'numpy packbits / integer arithmetic are correct',
 ]
-REQUIRED_COUNTERS = ['objects_checked', 'commutation_pairs_checked',
+REQUIRED_COUNTERS = ['objects_checked', 'history_steps_checked', 'commutation_pairs_checked',
                      'rank_computations']
 EXHAUSTIVE = True
 EXHAUSTIVE_SCOPE = ('all supported sizes with components <= B (see '
@@ -103,6 +103,8 @@ def check_code(code, desc, out, prefix='C01'):
     mech_base = f'{cls_name}'
     if desc.get('deformation'):
         mech_base += f"/{desc['deformation']}"
+    if desc.get('after_history'):
+        mech_base += '/after-history'
     rect = 'rect' if len(set(desc['size'])) > 1 else 'cubic'
     ok = True
 
@@ -227,8 +229,39 @@ def run_one(cls_name, size, dname, kwargs, out, beyond=False):
 
 def run_task(task, out):
     cls_name, size = task['cls'], tuple(task['size'])
-    for dname, kwargs in fam.deformations(cls_name):
+    defs = fam.deformations(cls_name)
+    for dname, kwargs in defs:
         run_one(cls_name, size, dname, kwargs, out, task.get('beyond_bound'))
+    # History on ONE object: every derived datum is read (by the oracle),
+    # then the object is deformed and judged again, for each offered
+    # deformation in turn -- validity must not depend on what was computed
+    # or which deformation was applied before.
+    if len(defs) > 1:
+        from pv.common import panqec_frame
+        rect = 'rect' if len(set(size)) > 1 else 'cubic'
+        try:
+            code = fam.build(cls_name, size)
+            hist = [None]
+            check_code(code, {'cls': cls_name, 'size': list(size),
+                              'deformation': None, 'history': hist}, out)
+            for dname, kwargs in defs[1:] + defs[1:2]:
+                code.deform(dname, **kwargs)
+                hist = hist + [[dname, kwargs]]
+                desc = {'cls': cls_name, 'size': list(size),
+                        'deformation': dname, 'kwargs': kwargs,
+                        'history': hist, 'after_history': True}
+                facts = check_code(code, desc, out)
+                out.count('history_steps_checked')
+                out.case(desc, nontrivial=facts['m'] > 0)
+        except Exception as e:
+            where = panqec_frame(e)
+            if where is None:
+                raise
+            out.violation(f'{cls_name}/{rect}/after-history/'
+                          f'raises-{type(e).__name__}',
+                          f'{type(e).__name__}: {e} at {where}',
+                          {'cls': cls_name, 'size': list(size),
+                           'where': where, 'after_history': True})
 
 
 KNOWN = {
@@ -238,6 +271,7 @@ KNOWN = {
 def classify(v):
     m = v['mechanism']
     tag = m.rsplit('/', 1)[-1]
+    m = m.replace('/after-history', '')
     if (m.startswith('Color666ToricCode/') and '/rect/' in m
             and (tag.startswith('logical-') or tag == 'raises-KeyError')):
         if tag == 'raises-KeyError' and \
